@@ -121,7 +121,13 @@ func runC23(c *an.Ctx) {
 	if enc != nil {
 		var sortCalls, pushes []ssa.Instruction
 		var sorted ssa.Value
-		for _, k := range an.Calls(enc) {
+		var encCalls []ssa.CallInstruction
+		var encBlocks []*ssa.BasicBlock
+		for _, g := range an.InlineReach(enc) {
+			encCalls = append(encCalls, an.Calls(g)...)
+			encBlocks = append(encBlocks, g.Blocks...)
+		}
+		for _, k := range encCalls {
 			f := k.Common().StaticCallee()
 			if f == nil {
 				continue
@@ -138,10 +144,14 @@ func runC23(c *an.Ctx) {
 		c.Check(ok && len(sortCalls) == 1 && len(pushes) >= 4, "sequence|EncodeMultiPubKeyProgramInto|sort-before-emit", "the keys are sorted before anything is emitted", c.P.Rel(enc.Pos()), why)
 		// the loop ranges over the sorted slice
 		ranged := false
-		for _, b := range enc.Blocks {
+		for _, b := range encBlocks {
 			for _, in := range b.Instrs {
-				if ia, isI := in.(*ssa.IndexAddr); isI && sorted != nil && ia.X == sorted {
-					ranged = true
+				if ia, isI := in.(*ssa.IndexAddr); isI && sorted != nil {
+					for _, d := range an.Deref(enc, ia.X) {
+						if d == sorted {
+							ranged = true
+						}
+					}
 				}
 			}
 		}
@@ -159,8 +169,8 @@ func runC23(c *an.Ctx) {
 		eof := mustObj(c, pp+".(*programParser).ExpectEOF")
 		if eof != nil {
 			g := an.GuardForFuncs("ExpectEOF", eof)
-			v := an.Guarded(c.P, gi, []*an.Guard{g}, nilErrReturn, false)
-			c.Check(v.Holds && v.GuardSites == 2 && v.ActionSites == 2, "guard|GetProgramInfo|ExpectEOF", "a script is accepted only if nothing follows the recognised pattern", c.P.Rel(gi.Pos()), v.Witness)
+			sites, rets, w := successUnreachable(c, gi, []*an.Guard{g}, nil)
+			c.Check(w == "" && sites == 2 && rets >= 1, "guard|GetProgramInfo|ExpectEOF", "a script is accepted only if nothing follows the recognised pattern", c.P.Rel(gi.Pos()), w)
 		}
 		// key count equality
 		cnt := &an.Guard{Name: "len(keys) != n", FailValue: an.ATrue, MatchValue: func(v ssa.Value) bool {
@@ -181,19 +191,21 @@ func runC23(c *an.Ctx) {
 		}}
 		// only the multisig success return is concerned: assume the CHECKSIG branch not taken
 		extra := map[ssa.Value]an.Abs{}
-		for _, v := range an.FindValues(gi, func(v ssa.Value) bool {
-			b, ok := v.(*ssa.BinOp)
-			if !ok || b.Op != token.EQL {
-				return false
+		for _, g := range an.InlineReach(gi) {
+			for _, v := range an.FindValues(g, func(v ssa.Value) bool {
+				b, ok := v.(*ssa.BinOp)
+				if !ok || b.Op != token.EQL {
+					return false
+				}
+				k, isK := b.Y.(*ssa.Const)
+				return isK && k.Value != nil && k.Value.String() == "172" // CHECKSIG
+			}) {
+				extra[v] = an.AFalse
 			}
-			k, isK := b.Y.(*ssa.Const)
-			return isK && k.Value != nil && k.Value.String() == "172" // CHECKSIG
-		}) {
-			extra[v] = an.AFalse
 		}
-		v := an.GuardedX(c.P, gi, []*an.Guard{cnt}, extra, nilErrReturn, false)
-		c.Check(v.Holds && v.GuardSites == 1 && len(extra) == 1, "guard|GetProgramInfo|key-count", "a multi-signature script is accepted only if the number of keys equals the declared n", c.P.Rel(gi.Pos()), v.Witness)
-		boundsGuardX(c, gi, "GetProgramInfo", nilErrReturn, extra)
+		sites, _, w := successUnreachable(c, gi, []*an.Guard{cnt}, extra)
+		c.Check(w == "" && sites == 1 && len(extra) == 1, "guard|GetProgramInfo|key-count", "a multi-signature script is accepted only if the number of keys equals the declared n", c.P.Rel(gi.Pos()), w)
+		boundsGuardX(c, gi, "GetProgramInfo", nil, extra)
 	}
 	if am := mustFunc(c, "core/types.AddressFromMultiPubKeys"); am != nil {
 		boundsGuard(c, am, "AddressFromMultiPubKeys", func(in ssa.Instruction) bool {
@@ -230,10 +242,13 @@ func boundsGuardX(c *an.Ctx, fn *ssa.Function, name string, isAction func(ssa.In
 		}},
 	}
 	for _, sp := range specs {
-		vals := an.FindValues(fn, func(v ssa.Value) bool {
-			b, ok := v.(*ssa.BinOp)
-			return ok && sp.match(b)
-		})
+		var vals []ssa.Value
+		for _, g := range an.InlineReach(fn) {
+			vals = append(vals, an.FindValues(g, func(v ssa.Value) bool {
+				b, ok := v.(*ssa.BinOp)
+				return ok && sp.match(b)
+			})...)
+		}
 		key := fmt.Sprintf("guard|%s|bounds-%s", name, sp.label)
 		rule := "the multi-signature parameters are validated (1 <= m <= n, 1 < n <= MULTI_SIG_MAX_PUBKEY_SIZE) before the script is built/accepted"
 		if len(vals) == 0 {
@@ -244,6 +259,13 @@ func boundsGuardX(c *an.Ctx, fn *ssa.Function, name string, isAction func(ssa.In
 		for _, val := range vals {
 			val := val
 			g := &an.Guard{Name: sp.label, FailValue: an.AFalse, MatchValue: func(v ssa.Value) bool { return v == val }}
+			if isAction == nil {
+				// the action is "fn reports success" (a nil error), judged on the evaluated results
+				if _, rets, w := successUnreachable(c, fn, []*an.Guard{g}, extra); w == "" && rets >= 1 {
+					held = true
+				}
+				continue
+			}
 			v := an.GuardedX(c.P, fn, []*an.Guard{g}, extra, isAction, false)
 			if v.Holds && v.ActionSites >= 1 {
 				held = true
